@@ -56,7 +56,9 @@ def fl(m, k):
 
 
 def mantissas(v):
-    return MANT + EXTRA_MANT[int(v) % 3]
+    if int(v) >= 3:  # thorough tier: the additions of all valuations
+        return MANT + [m for k in sorted(EXTRA_MANT) for m in EXTRA_MANT[k]]
+    return MANT + EXTRA_MANT[int(v)]
 
 
 def values_for(v, exps=EXPS):
@@ -328,7 +330,14 @@ def held(fit, asym=False):
 
 
 def _same(a, b):
-    return repr(a) == repr(b)
+    """Held values before / after a display: equal up to 1e-9 (relative to the largest entry) - far below any displayed digit."""
+    if a is None or b is None or isinstance(a, (bool, str)) or (isinstance(a, list) and a and isinstance(a[0], str)):
+        return a == b
+    x, y = np.asarray(a, dtype=float), np.asarray(b, dtype=float)
+    if x.shape != y.shape:
+        return False
+    scale = max(1e-300, float(np.max(np.abs(x))) if x.size else 0.0)
+    return bool(np.all((np.abs(x - y) <= 1e-9 * scale) | ((x != x) & (y != y))))
 
 
 class Shower(object):
@@ -673,7 +682,7 @@ def jobs(tier, seed):
             for backend in ("scipy", "iminuit"):
                 for fix in (False, True):
                     specs.append(("show", problem, backend, vv, fix, tier))
-    fv = v  # the formatter grid is the same in every valuation up to two extra mantissas
+    fv = v if tier == "quick" else 3  # the formatter grid is the same in every valuation up to two extra mantissas (thorough: all of them)
     for n in NSIG:
         for k in EXP_ORDER:
             specs.append(("sym", k, n, fv, tier))
@@ -691,7 +700,7 @@ def bound(tier, seed):
         "get_formatted: %d uncertainty mantissas x exponents -6..6 x (0 and +- the same set) values x n in {1,2,3} x {plain, LaTeX}, complete; "
         "asymmetric pairs (equal, same decade, up to %d decades apart, both orientations) x %d values x n x {plain, LaTeX}; fixed flag x all values; "
         "displays: %d problems x 2 backends x {free, last parameter fixed} x %d moment sequences x 2 display orders, valuation(s) %s"
-        % (len(MANT) + 2, 1 if tier == "quick" else 2, len(asym_values(0, tier)), len(PROBLEMS), len(seq_names(tier)), (seed % 3) if tier == "quick" else "0,1,2")
+        % (len(mantissas((seed % 3) if tier == "quick" else 3)), 1 if tier == "quick" else 2, len(asym_values(0, tier)), len(PROBLEMS), len(seq_names(tier)), (seed % 3) if tier == "quick" else "0,1,2")
     )
 
 
